@@ -73,6 +73,16 @@ class MockReg(wiring.Component):
         return Module()
 
 
+class MockRegEq(MockReg):
+    """Registers with value semantics: all instances compare equal and hash alike (a user class whose
+    registers are 'equal when their description is equal'). The library goes by object identity."""
+    def __eq__(self, other):
+        return isinstance(other, MockRegEq)
+
+    def __hash__(self):
+        return 11
+
+
 CSR_DWS = (1, 2, 3, 4, 5, 8, 8, 13, 16)
 
 
@@ -109,6 +119,11 @@ def csr_layout(draw, max_regs=6, dws=CSR_DWS, overlaps=True, high=None):
     # after the multiplexer was already elaborated once
     lay["late"] = draw(st.sampled_from([0, 0, 0, 0, 1, 2]))
     lay["mid_elab"] = draw(st.booleans())
+    # Python-level circumstances that must not matter: registers with value equality, the map
+    # assigned through bus.memory_map after construction over another one, a trivial subclass
+    lay["valeq"] = draw(st.sampled_from([False] * 4 + [True]))
+    lay["remap"] = draw(st.sampled_from([False] * 5 + [True]))
+    lay["subclass"] = draw(st.sampled_from([False] * 5 + [True]))
     if overlaps:
         lay["ov"] = draw(st.sampled_from([None, None, 0, 1, 2, 3]))
     if overlaps if high is None else high:
@@ -155,8 +170,19 @@ def build_csr_mux(lay, ov=None, name_prefix="r"):
     before the late registers are added). Returns (multiplexer, [(reg, start, end)])."""
     n = len(lay["regs"])
     late = min(lay.get("late", 0), n - 1)
-    mm, regs = build_csr_map(lay, name_prefix=name_prefix, count=n - late)
-    mux = csr.Multiplexer(mm, shadow_overlaps=ov)
+    factory = MockRegEq if lay.get("valeq") else MockReg
+    mm, regs = build_csr_map(lay, factory, name_prefix=name_prefix, count=n - late)
+    cls = sub_of(csr.Multiplexer, lay.get("subclass"))
+    if lay.get("remap"):
+        # built over some other map of the same geometry first; the real one is assigned through
+        # the public setter of bus.memory_map afterwards
+        decoy = MemoryMap(addr_width=mm.addr_width, data_width=mm.data_width)
+        decoy.add_resource(MockReg(lay["dw"] * 2 + 1, "rw"), name=("decoy",), size=3, addr=(1 << mm.addr_width) - 3 if mm.addr_width >= 2 else 0) \
+            if mm.addr_width >= 2 else decoy.add_resource(MockReg(1, "rw"), name=("decoy",), size=1)
+        mux = cls(decoy, shadow_overlaps=ov)
+        mux.bus.memory_map = mm
+    else:
+        mux = cls(mm, shadow_overlaps=ov)
     if late:
         if lay.get("mid_elab"):
             from amaranth.hdl import Fragment
@@ -165,7 +191,7 @@ def build_csr_mux(lay, ov=None, name_prefix="r"):
             except ValueError:
                 pass          # a deliberately refused (unbalanceable) intermediate layout
         try:
-            _, regs = build_csr_map(lay, name_prefix=name_prefix, into=(mm, regs))
+            _, regs = build_csr_map(lay, factory, name_prefix=name_prefix, into=(mm, regs))
         except ValueError:
             # the map no longer accepts registers (e.g. frozen by the multiplexer): whether that is
             # allowed is C02's/C19's business; here the layout is simply built in the usual order
@@ -306,15 +332,17 @@ class MockAction(csr.FieldAction):
         return Module()
 
 
-def make_field(leaf):
+def make_field(leaf, subclass=False):
+    """``subclass``: the action class is a trivial user subclass of the library's."""
     a = leaf["a"]
     shp = shape_of(leaf["s"])
     if a.startswith("Mock"):
         return csr.Field(MockAction, shp, access=ACTION_ACCESS[a])
+    cls = sub_of(ACTIONS[a], subclass)
     if a in ("RW", "RW1C", "RW1S") and (leaf.get("init") is not None or leaf["s"][0] in ("arr", "struct")):
         # aggregate shapes have no usable default (the library's init=0 is not a valid initialiser for them)
-        return csr.Field(ACTIONS[a], shp, init=init_arg(leaf["s"], leaf.get("init") or 0))
-    return csr.Field(ACTIONS[a], shp)
+        return csr.Field(cls, shp, init=init_arg(leaf["s"], leaf.get("init") or 0))
+    return csr.Field(cls, shp)
 
 
 def field_leaf(actions, enums=True):
@@ -331,16 +359,32 @@ def field_tree(actions, enums=True, max_leaves=8):
             st.lists(st.tuples(keys, children).map(list), min_size=1, max_size=4,
                      unique_by=lambda kv: kv[0]).map(lambda kvs: {"d": kvs}),
             st.lists(children, min_size=1, max_size=4).map(lambda xs: {"l": xs}),
+            # the same description several times (arrays written by multiplication, one list under two names)
+            st.tuples(children, st.integers(2, 3)).map(lambda t: {"l": [t[0]] * t[1]}),
+            st.tuples(children, st.integers(2, 3)).map(lambda t: {"d": [[k, t[0]] for k in ("rx", "tx", "aux")[:t[1]]]}),
         )
     return st.recursive(leaf, extend, max_leaves=max_leaves)
 
 
-def tree_to_fields(t):
+def tree_to_fields(t, share=False, subclass=False, memo=None):
+    """The description as the Python objects a user would write. ``share``: equal sub-descriptions
+    are one and the same dict / list / Field object wherever they occur (``[chan] * 3``,
+    ``{"rx": chan, "tx": chan}``) instead of equal copies."""
+    import json
+    if share:
+        memo = {} if memo is None else memo
+        key = json.dumps(t, sort_keys=True)
+        if key in memo:
+            return memo[key]
     if "a" in t:
-        return make_field(t)
-    if "d" in t:
-        return {k: tree_to_fields(v) for k, v in t["d"]}
-    return [tree_to_fields(v) for v in t["l"]]
+        out = make_field(t, subclass)
+    elif "d" in t:
+        out = {k: tree_to_fields(v, share, subclass, memo) for k, v in t["d"]}
+    else:
+        out = [tree_to_fields(v, share, subclass, memo) for v in t["l"]]
+    if share:
+        memo[key] = out
+    return out
 
 
 def tree_leaves(t, path=()):
@@ -475,7 +519,75 @@ def csr_decoder_config(draw, max_subs=5, max_sub_aw=5, dws=CSR_DWS):
             # windows start at a high base address (decoders with more than 32 address bits)
             "base": draw(st.sampled_from([0] * 14 + [1 << 33, (1 << 36) + (1 << 20)])),
             # accepted subordinates that are add()ed a second time afterwards (refused: already added)
-            "readd": draw(st.lists(st.integers(0, 4), max_size=2)) if draw(st.integers(0, 4)) == 0 else []}
+            "readd": draw(st.lists(st.integers(0, 4), max_size=2)) if draw(st.integers(0, 4)) == 0 else [],
+            "opts": draw(decoder_opts())}
+
+
+DECODER_OPTS = ("early_q", "alias_decoy", "replace_map", "flip_temp", "subclass")
+
+
+def decoder_opts():
+    """Python-level circumstances of a decoder's construction that must not matter:
+    early_q     - the decoder's memory map is queried (decode_address, all_resources, window_patterns)
+                  before each add()
+    alias_decoy - afterwards a second decoder receives *other* interface objects that carry the same
+                  memory-map objects (two ports onto the same peripherals)
+    replace_map - dec.bus.memory_map is re-assigned (public setter) to a fresh map of the same geometry
+                  before the first add()
+    flip_temp   - add() receives wiring.flipped(iface) temporaries that nobody else references
+    subclass    - the decoder is an instance of a trivial subclass"""
+    return st.fixed_dictionaries({k: st.sampled_from([False] * 5 + [True]) for k in DECODER_OPTS})
+
+
+_SUBCLASSES = {}
+
+
+def sub_of(cls, flag=True):
+    """A trivial user subclass of a library class (``class MyDecoder(csr.Decoder): pass``)."""
+    if not flag:
+        return cls
+    if cls not in _SUBCLASSES:
+        _SUBCLASSES[cls] = type("My" + cls.__name__, (cls,), {})
+    return _SUBCLASSES[cls]
+
+
+def _early_q(dec, cfg, ps, pe):
+    if not cfg.get("opts", {}).get("early_q"):
+        return
+    mm = dec.bus.memory_map
+    top = 1 << mm.addr_width
+    for a in (ps, ps + 1, pe - 1, pe, 0, top - 1):
+        if 0 <= a < top:
+            mm.decode_address(a)
+    for _ in mm.all_resources():
+        pass
+    list(mm.window_patterns()); list(mm.windows())
+
+
+def _replace_map(dec, cfg):
+    if cfg.get("opts", {}).get("replace_map"):
+        old = dec.bus.memory_map
+        dec.bus.memory_map = MemoryMap(addr_width=old.addr_width, data_width=old.data_width, alignment=old.alignment)
+
+
+def _add_arg(cfg, iface):
+    return wiring.flipped(iface) if cfg.get("opts", {}).get("flip_temp") else iface
+
+
+def _alias_decoy(dec, cfg, ifaces, make_decoder, make_iface, add_kw):
+    """A second decoder over other interface objects that carry the *same* memory maps."""
+    if not cfg.get("opts", {}).get("alias_decoy"):
+        return
+    decoy = make_decoder()
+    dec.decoy = [decoy]
+    for i, f in enumerate(ifaces):
+        twin = make_iface(i, f)
+        twin.memory_map = f.memory_map
+        dec.decoy.append(twin)
+        try:
+            decoy.add(twin, **add_kw(i))
+        except ValueError:
+            pass
 
 
 def plan_windows(al, subs_maw, subs, shuffle=False, base=0):
@@ -522,8 +634,9 @@ def _build_csr_decoder(cfg, ifaces=None, prefix="w"):
     aw = max(1, ceil_log2(max(end, 1))) + cfg["extra_aw"]
     if cfg["squeeze"] and aw > 1:
         aw -= 1
-    dec = csr.Decoder(addr_width=aw, data_width=cfg["dw"], alignment=cfg["al"])
+    dec = sub_of(csr.Decoder, cfg.get("opts", {}).get("subclass"))(addr_width=aw, data_width=cfg["dw"], alignment=cfg["al"])
     dec.verif_ctor = {"addr_width": aw, "data_width": cfg["dw"]}
+    _replace_map(dec, cfg)
     given, ifaces = ifaces, []
     if given is None:
         given = []
@@ -555,10 +668,15 @@ def _build_csr_decoder(cfg, ifaces=None, prefix="w"):
             dec.align_to(s["k"])
         if s["mode"] == "slot" or shuffle or (base and i == 0):
             kw["addr"] = ps
-        got = dec.add(iface, **kw)
+        _early_q(dec, cfg, ps, pe)
+        got = dec.add(_add_arg(cfg, iface), **kw)
         ifaces.append(iface)
         _mid_elab(dec, cfg, i)
     _readd(dec, cfg, ifaces, {})
+    _alias_decoy(dec, cfg, ifaces,
+                 lambda: csr.Decoder(addr_width=aw, data_width=cfg["dw"], alignment=cfg["al"]),
+                 lambda i, f: csr.Interface(addr_width=f.addr_width, data_width=f.data_width, path=(f"alias{i}",)),
+                 lambda i: {"addr": plan[i][0]})
     return dec, ifaces, plan
 
 
@@ -615,7 +733,9 @@ def wb_decoder_config(draw, max_subs=5, max_sub_aw=4):
             "ghosts": draw(st.sampled_from([0, 0, 0, 1, 2])),
             "mid_elab": draw(st.sampled_from([None, None, None, 0, 1, 2])),
             "base": draw(st.sampled_from([0] * 14 + [1 << 33, (1 << 36) + (1 << 20)])),
-            "readd": draw(st.lists(st.integers(0, 4), max_size=2)) if draw(st.integers(0, 4)) == 0 else []}
+            "readd": draw(st.lists(st.integers(0, 4), max_size=2)) if draw(st.integers(0, 4)) == 0 else [],
+            "opts": draw(decoder_opts()), "feat_style": draw(st.sampled_from(FEATURE_STYLES)),
+            "feat_tamper": draw(st.sampled_from(FEATURE_TAMPER))}
 
 
 def wb_sub_map_aw(s):
@@ -649,9 +769,12 @@ def _build_wb_decoder(cfg, ifaces=None, prefix="w"):
     # a decoder without address bits still has a 1-bit memory map: one 2-granule window fits
     if cfg.get("zero_aw") and gbits == 0 and needed <= 1:
         aw = 0
-    dec = wishbone.Decoder(addr_width=aw, data_width=cfg["dw"], granularity=cfg["g"],
-                           features=cfg["feat"], alignment=cfg["al"])
+    passed = spell_features(cfg["feat"], cfg.get("feat_style", "list"))
+    dec = sub_of(wishbone.Decoder, cfg.get("opts", {}).get("subclass"))(
+        addr_width=aw, data_width=cfg["dw"], granularity=cfg["g"], features=passed, alignment=cfg["al"])
+    tamper_features(passed, dec.bus, cfg.get("feat_tamper"))
     dec.verif_ctor = {"addr_width": aw, "data_width": cfg["dw"], "granularity": cfg["g"], "features": cfg["feat"]}
+    _replace_map(dec, cfg)
     given, ifaces = ifaces, []
     if given is None:
         given = []
@@ -687,8 +810,15 @@ def _build_wb_decoder(cfg, ifaces=None, prefix="w"):
             dec.align_to(s["k"])
         if s["mode"] == "slot" or shuffle or (base and i == 0):
             kw["addr"] = ps
-        dec.add(iface, **kw)
+        _early_q(dec, cfg, ps, pe)
+        dec.add(_add_arg(cfg, iface), **kw)
         ifaces.append(iface)
         _mid_elab(dec, cfg, i)
     _readd(dec, cfg, ifaces, {"sparse": None})
+    _alias_decoy(dec, cfg, ifaces,
+                 lambda: wishbone.Decoder(addr_width=aw, data_width=cfg["dw"], granularity=cfg["g"],
+                                          features=cfg["feat"], alignment=cfg["al"]),
+                 lambda i, f: wishbone.Interface(addr_width=f.addr_width, data_width=f.data_width, granularity=f.granularity,
+                                                 features=f.features, path=(f"alias{i}",)),
+                 lambda i: {"addr": plan[i][0], "sparse": cfg["subs"][i].get("sparse", False)})
     return dec, ifaces, plan
